@@ -1,12 +1,12 @@
 SPECIFICATION Spec
-CONSTANTS RY = 4
-          RX = 4
+CONSTANTS RY = 2
+          RX = 2
           NY = 8
           NX = 8
           NS = 2
           NM = 2
-          Pos <- PosDef
-          Half = FALSE
+          Pos <- PosHalf
+          Half = TRUE
           PropR = 1
           PropC = 1
           TwiddleBug = FALSE
